@@ -5,7 +5,9 @@ package harness
 import (
 	"context"
 	"fmt"
+	"github.com/ipfs/go-unixfsnode/hamt"
 	"sort"
+	"strings"
 	"testing"
 
 	"github.com/ipfs/go-cid"
@@ -357,9 +359,19 @@ func TestC15_P_ShardedDirs(t *testing.T) {
 		}
 		ls := st.LinkSystem()
 		st.RequireSession = len(names)%2 == 1 // (the store serves only loads that carry the request's context)
-		for _, reifier := range []string{"unixfs", "unixfs-preload", "Load+NodeReifier"} {
+		for _, reifier := range []string{"unixfs", "unixfs-preload", "Load+NodeReifier", "unixfs+AttemptHAMTShardFromNode(another link system)"} {
 			var cerr error
 			load := func() (datamodel.Node, error) {
+				if strings.HasPrefix(reifier, "unixfs+Attempt") {
+					// a reified directory narrowed to the shard type by a caller that holds its own copy of the link system
+					// (a request handler with a per-request link system): the result is the same directory
+					rn, err := loadReified(ls, root, "unixfs")
+					if err != nil {
+						return nil, err
+					}
+					other := *ls
+					return hamt.AttemptHAMTShardFromNode(sessionCtx, rn, &other)
+				}
 				if reifier == "Load+NodeReifier" {
 					// a link system that reifies whatever it loads: child shards reach the directory already reified
 					ls2 := *ls
